@@ -10,7 +10,7 @@
      parent1 c, anc n c        parent cell, n-fold ancestor of a cell multi-index *)
 From Coq Require Import List Arith Sorted.
 From Verif.lib Require Import FinSet.
-From Verif.C04 Require Import Model Proofs ProofsFun ProofsMesh ProofsQuery ProofsClosure Children ProofsChildren ProofsParents ProofsDisparity ProofsDisparityD.
+From Verif.C04 Require Import Model Proofs ProofsFun ProofsMesh ProofsQuery ProofsClosure Children ProofsChildren ProofsParents ProofsDisparity ProofsDisparityD Boundary Supports ProofsSupports.
 Import ListNotations.
 
 (* Invariant of every reachable state, for every dimension, degree, knot multiplicities,
@@ -268,3 +268,14 @@ Theorem disparity_admissible : forall axes, Forall axis_ok axes -> Forall axis_p
   admissible axes (Some d) ops d.
 Proof. exact disparity_admissible_l. Qed.
 Print Assumptions disparity_admissible.
+
+(* hmesh_cells merges the per-level results (a missing merge, dict.update instead of _dict_union, is
+   what one of the seeded changes broke): its level-k entry is the union over the query levels lv of the
+   level-k entries of _TP_to_HMesh_cells(lv, cells[lv]).
+   NOT PROVED: that on reachable states the supports of all active functions cover all active cells
+   (supports_cover_b); evaluated on the implementation and compared with the model on every run. *)
+Theorem hmesh_cells_is_union_over_levels : forall st cells k c,
+  In c (nth k (hmesh_cells st cells) []) <->
+  k < numlevels st /\ exists lv, lv < numlevels st /\ In c (nth k (tp_to_hmesh st lv (nth lv cells [])) []).
+Proof. exact hmesh_cells_union_l. Qed.
+Print Assumptions hmesh_cells_is_union_over_levels.
